@@ -1,4 +1,4 @@
-"""P part shared by C03 / C12: callers of the native hybrid decoder checked against the callee's contract."""
+"""P part shared by C03 / C11 / C12: callers of the native hybrid decoder checked against the callee's contract."""
 import re
 
 from contracts import c03_callsites
@@ -8,13 +8,14 @@ KNOWN = {
     "C03": [("C03-P-v2-level-length-is-count", re.compile(r"^hybrid\.length_is_bytes\[read_data_page_v2:")),
             ("C03-P-v2-itemsize-is-bit-width", re.compile(r"^hybrid\.itemsize_in_1_4\[read_data_page_v2:"))],
     "C12": [("C12-P-v2-itemsize-is-bit-width", re.compile(r"^hybrid\.itemsize_in_1_4\[read_data_page_v2:"))],
+    "C11": [("C11-P-v2-itemsize-is-bit-width", re.compile(r"^hybrid\.itemsize_in_1_4\[read_data_page_v2:"))],
 }
 
 
 def p_callsites(ctx):
     res = c03_callsites.check(ctx, 10000 if ctx.tier == "quick" else 60000)
     for name in res.order:
-        if ctx.prop == "C12" and "length_is_bytes" in name:
+        if ctx.prop in ("C11", "C12") and "length_is_bytes" in name:
             continue
         st = res.status(name)
         e = next((x for x in res.d[name] if x[0] == st), res.d[name][0])
